@@ -919,7 +919,9 @@ func getJsTag(tag string) string {
 }
 
 func needsSpace(c byte) bool {
-	return (c >= 'a' && c <= 'z') || (c >= 'A' && c <= 'Z') || (c >= '0' && c <= '9') || c == '_' || c == '$' || c == '\b'
+	// Bytes of a multi-byte UTF-8 sequence belong to identifiers, too (Go labels
+	// and field names keep their non-ASCII spelling in the generated code).
+	return (c >= 'a' && c <= 'z') || (c >= 'A' && c <= 'Z') || (c >= '0' && c <= '9') || c == '_' || c == '$' || c == '\b' || c >= 0x80
 }
 
 func removeWhitespace(b []byte, minify bool) []byte {
